@@ -154,14 +154,53 @@ type cacheWorld struct {
 
 func (w *cacheWorld) dirPath(id string) string { return filepath.Join(w.root, id, "d") }
 
+func (w *cacheWorld) linkTarget(dir, name string) string {
+	return filepath.Join(w.root, "targets", dir+"__"+name)
+}
+
+func isSymlink(p string) bool {
+	st, err := os.Lstat(p)
+	return err == nil && st.Mode()&os.ModeSymlink != 0
+}
+
 func (w *cacheWorld) putEntry(dir, name string, c mContent) error {
 	p := filepath.Join(w.dirPath(dir), name)
+	_ = os.MkdirAll(filepath.Join(w.root, "targets"), 0o755)
+	switch {
+	case c.K == "dangling" || c.K == "linkok":
+		// a link whose target appears or disappears: the link itself is left alone when it
+		// is already there (a repair of a dangling link does not touch the directory)
+		t := w.linkTarget(dir, name)
+		if l, err := os.Readlink(p); err != nil || l != t {
+			_ = os.RemoveAll(p)
+			if err := os.Symlink(t, p); err != nil {
+				return err
+			}
+		}
+		if c.K == "dangling" {
+			_ = os.Remove(t)
+			return nil
+		}
+		cc := c
+		cc.K = "ok"
+		return os.WriteFile(t, contentBytes(cc, name), 0o644)
+	}
 	_ = os.RemoveAll(p)
 	switch {
 	case c.K == "none":
 		return nil
-	case c.K == "dangling":
-		return os.Symlink(filepath.Join(w.root, "no-such-target"), p)
+	case c.K == "linkdir":
+		t := filepath.Join(w.root, "targets", "adir")
+		if err := os.MkdirAll(t, 0o755); err != nil {
+			return err
+		}
+		_ = os.WriteFile(filepath.Join(t, "inner.json"), contentBytes(mContent{K: "ok", Kind: "k1", Ds: []string{"x", "y"}, V: 9}, "inner.json"), 0o644)
+		return os.Symlink(t, p)
+	case c.K == "dirent":
+		if err := os.Mkdir(p, 0o755); err != nil {
+			return err
+		}
+		return os.WriteFile(filepath.Join(p, "inner.json"), contentBytes(mContent{K: "ok", Kind: "k1", Ds: []string{"x", "y"}, V: 9}, "inner.json"), 0o644)
 	case name == "sub":
 		if err := os.Mkdir(p, 0o755); err != nil {
 			return err
@@ -338,7 +377,7 @@ func hasFault(dirs []string, fs map[string]mDir) bool {
 			return true
 		}
 		for n, c := range d.Ents {
-			if c.K != "none" && c.K != "ok" && (strings.HasSuffix(n, ".json") || strings.HasSuffix(n, ".yaml")) {
+			if c.K != "none" && c.K != "ok" && c.K != "linkok" && c.K != "dirent" && (strings.HasSuffix(n, ".json") || strings.HasSuffix(n, ".yaml")) {
 				return true
 			}
 		}
@@ -399,6 +438,11 @@ func tokName(t mTok) string {
 	switch t.T {
 	case "q":
 		return kindName[t.Kind] + "=" + t.D
+	case "pad":
+		if t.D == "x" {
+			return " " + kindName[t.Kind] + "=" + t.D
+		}
+		return kindName[t.Kind] + "=" + t.D + "\n"
 	case "unk":
 		return "nosuch.com/cls=x"
 	case "bad":
